@@ -508,6 +508,7 @@ class StarSet(object):
                     continue
                 if not s.iszero() and not s in oldstateset: newstateset.add(s)
         # now to sort our set of vectors (easiest by magnitude, and then reduce down:
+        if not newstateset: return self  # nothing new is reached (closed network): we're done
         self.states += sorted([s for s in newstateset], key=PairState.sortkey)
         Nnew = len(self.states)
         x2_indices = []
